@@ -37,7 +37,7 @@ class Boom(Exception):
 
 
 # ====================================================================================== WSGI event stream on threads
-def run_wsgi_sse(prefix, n_items, raise_at, consume, line_points, max_timeouts):
+def run_wsgi_sse(prefix, n_items, raise_at, consume, line_points, max_timeouts, empty_at=None):
     import baize.wsgi.responses as WR
 
     S = VT.Sched(prefix, max_timeouts=max_timeouts)
@@ -52,7 +52,7 @@ def run_wsgi_sse(prefix, n_items, raise_at, consume, line_points, max_timeouts):
                 if raise_at == i:
                     raise Boom(i)
                 obs["yielded"].append(i)
-                yield {"data": str(i)}
+                yield ({} if i == empty_at else {"data": str(i)})  # an empty event dictionary is falsy
             S.point("gen-end")
             if raise_at == n_items:
                 raise Boom("end")
@@ -108,7 +108,7 @@ def run_wsgi_sse(prefix, n_items, raise_at, consume, line_points, max_timeouts):
     return S.execution(obs)
 
 
-def judge_wsgi_sse(o, n_items, raise_at, consume):
+def judge_wsgi_sse(o, n_items, raise_at, consume, empty_at=None):
     p = []
     if o["watchdog"]:
         return ["harness watchdog expired (a thread neither finished nor reached a scheduling point)"]
@@ -132,6 +132,9 @@ def judge_wsgi_sse(o, n_items, raise_at, consume):
             p.append(f"response iterable yielded {type(item).__name__} {item!r:.40}, not bytes")
             continue
         if item == b": ping\n\n":
+            continue
+        if item == b"\n" and empty_at is not None:
+            data.append(empty_at)
             continue
         m = re.fullmatch(rb"data: (\d+)\n\n", item)
         if not m:
@@ -204,10 +207,10 @@ def wsgi_stream_cases(r, nmax):
 
 
 # ====================================================================================== ASGI on the virtual loop
-def run_asgi(prefix, kind, n_items, raise_at, gate_sends, slow_close, with_disconnect, max_pings):
+def run_asgi(prefix, kind, n_items, raise_at, gate_sends, slow_close, with_disconnect, max_pings, empty_at=None):
     import baize.asgi.responses as AR
 
-    obs = {"enter": 0, "exit": 0, "cleanup_started": 0, "sent": [], "yielded": [], "disc_processed_at": None, "exc": None}
+    obs = {"enter": 0, "exit": 0, "cleanup_started": 0, "sent": [], "yielded": [], "disc_processed_at": None, "disc_event_at": None, "exc": None, "post_disc_items": [], "post_disc_timers": 0}
     with Session() as s:
         env = s.env
 
@@ -219,7 +222,7 @@ def run_asgi(prefix, kind, n_items, raise_at, gate_sends, slow_close, with_disco
                     if raise_at == i:
                         raise Boom(i)
                     obs["yielded"].append(i)
-                    yield ({"data": str(i)} if kind == "sse" else b"%d;" % i)
+                    yield (({} if i == empty_at else {"data": str(i)}) if kind == "sse" else b"%d;" % i)
                 await env.gate("pend")
                 if raise_at == n_items:
                     raise Boom("end")
@@ -229,9 +232,17 @@ def run_asgi(prefix, kind, n_items, raise_at, gate_sends, slow_close, with_disco
                     await env.gate("cleanup")
                 obs["exit"] += 1
 
+        srv = {"first": True, "gone": False}
+
         async def receive():
-            await env.gate("xdisconnect")
-            obs["disc_processed_at"] = len(obs["sent"])
+            # a server hands out the (empty) request body first, then blocks until the client goes away
+            if srv["first"]:
+                srv["first"] = False
+                return {"type": "http.request", "body": b"", "more_body": False}
+            if not srv["gone"]:
+                await env.gate("recv-wait")
+            if obs["disc_processed_at"] is None:
+                obs["disc_processed_at"] = len(obs["sent"])
             return {"type": "http.disconnect"}
 
         nsend = [0]
@@ -258,9 +269,11 @@ def run_asgi(prefix, kind, n_items, raise_at, gate_sends, slow_close, with_disco
             if loop._ready:
                 opts.append(("run", None))
             for name in env.names():
-                if name == "xdisconnect" and not with_disconnect:
+                if name == "recv-wait":
                     continue
                 opts.append(("env", name))
+            if with_disconnect and not srv["gone"]:
+                opts.append(("disconnect", None))
             if loop.live_timers() and (pings < max_pings or not opts):
                 opts.append(("timer", None))
             if not opts:
@@ -277,9 +290,18 @@ def run_asgi(prefix, kind, n_items, raise_at, gate_sends, slow_close, with_disco
             if k == "run":
                 loop.step_ready()
             elif k == "env":
+                if srv["gone"] and arg[:1] == "p" and arg[1:].isdigit():
+                    obs["post_disc_items"].append(int(arg[1:]))  # this producer step happens after the client left
                 env.deliver(arg)
+            elif k == "disconnect":
+                srv["gone"] = True
+                obs["disc_event_at"] = len(obs["sent"])
+                if "recv-wait" in env.names():
+                    env.deliver("recv-wait")
             else:
                 pings += 1
+                if srv["gone"]:
+                    obs["post_disc_timers"] += 1
                 loop.fire_timer()
             steps += 1
             if steps > 4000:
@@ -310,7 +332,7 @@ def run_asgi(prefix, kind, n_items, raise_at, gate_sends, slow_close, with_disco
     return Execution(choices, points, obs)
 
 
-def judge_asgi(o, kind, n_items, raise_at, with_disconnect, slow_close):
+def judge_asgi(o, kind, n_items, raise_at, with_disconnect, slow_close, empty_at=None):
     p = []
     if o["stuck"]:
         return [f"STUCK ({o['stuck']}): the response call never returned although every event was delivered; trace {o['trace'][-12:]}"]
@@ -335,13 +357,23 @@ def judge_asgi(o, kind, n_items, raise_at, with_disconnect, slow_close):
             continue
         if kind == "sse":
             mm = re.fullmatch(rb"data: (\d+)\n\n", b)
-            data.append(int(mm.group(1)) if mm else b)
+            data.append(int(mm.group(1)) if mm else (empty_at if b == b"\n" and empty_at is not None else b))
         else:
             data.extend(int(x) for x in b.split(b";") if x)
     if data != o["yielded"][:len(data)]:
         p.append(f"delivered {data} is not a prefix of yielded {o['yielded']}")
     disc = o["disc_processed_at"]
-    if disc is None:
+    ev = o["disc_event_at"]
+    if ev is not None:
+        # what the producer yields after the client left: at most one such item may still be sent (the call must end by the
+        # producer's next step); what was already in the pipeline before may still go out
+        late_items = [d for d in data if d in o["post_disc_items"]]
+        if len(late_items) > 1:
+            p.append(f"items {late_items} were produced and sent after the client had disconnected (the call must end by the producer's next step)")
+        late_pings = [x for x in sent[ev:] if x[1] == b": ping\n\n"]
+        if len(late_pings) > 1 + (o.get("timers_before", 1)):
+            p.append(f"{len(late_pings)} pings sent after the client had disconnected")
+    if ev is None:
         if raise_at is None:
             if data != list(range(n_items)):
                 p.append(f"no disconnect, producer finished, but delivered {data}")
@@ -353,8 +385,8 @@ def judge_asgi(o, kind, n_items, raise_at, with_disconnect, slow_close):
             if data != list(range(raise_at)):
                 p.append(f"items before the failure lost: {data}")
     else:
-        after = [x for x in sent[disc:] if x[0] == "http.response.body" and x[1]]
-        if len(after) > 1 + (1 if False else 0) + 1:
+        after = [x for x in sent[disc:] if x[0] == "http.response.body" and x[1]] if disc is not None else []
+        if len(after) > 1:
             p.append(f"{len(after)} payload messages sent after the disconnect was processed")
         if o["exc"] not in (None, "Boom"):
             p.append(f"call raised {o['exc']}")
@@ -369,7 +401,14 @@ def wsgi_configs(tier):
         for raise_at in [None] + list(range(0, n + 1)):
             for consume in list(range(0, n + 2)) + [None]:
                 for timeouts in ((0, 1) if tier == "quick" else (0, 1, 2)):
-                    out.append((n, raise_at, consume, timeouts))
+                    out.append((n, raise_at, consume, timeouts, None))
+                    if raise_at is None and timeouts <= 1:
+                        for e in range(n):
+                            out.append((n, raise_at, consume, timeouts, e))
+    if nmax < 3:
+        # an empty event that is neither first nor last, with the consumer closing at every point
+        for consume in (1, 2, 3, None):
+            out.append((3, None, consume, 0, 1))
     return out
 
 
@@ -383,7 +422,15 @@ def asgi_configs(tier):
                     for disc in (False, True):
                         if gate_sends and n == 2 and tier == "quick":
                             continue
-                        out.append((kind, n, raise_at, gate_sends, slow_close, disc, 1 if tier == "quick" else 2))
+                        out.append((kind, n, raise_at, gate_sends, slow_close, disc, 1 if tier == "quick" else 2, None))
+    for kind in ("stream", "sse"):
+        out.append((kind, 3, None, False, False, True, 1, None))   # a producer longer than what may legally follow a disconnect
+        out.append((kind, 3, None, False, False, False, 1, None))
+    for e in (0, 1):
+        for disc in (False, True):
+            out.append(("sse", 2, None, False, False, disc, 1, e))   # an empty (falsy) event dictionary
+            if tier == "thorough" or not disc:
+                out.append(("sse", 2, None, True, False, disc, 1, e))
     return out
 
 
@@ -402,22 +449,22 @@ def bounds_for(tier):
 def run_shard(desc, tier):
     r = R()
     if desc[0] == "wsgi_sse":
-        n, raise_at, consume, timeouts = wsgi_configs(tier)[desc[1]]
+        n, raise_at, consume, timeouts, empty_at = wsgi_configs(tier)[desc[1]]
         outcomes = set()
         for line_points, bound in bounds_for(tier):
             def run(prefix):
-                return run_wsgi_sse(prefix, n, raise_at, consume, line_points, timeouts)
+                return run_wsgi_sse(prefix, n, raise_at, consume, line_points, timeouts, empty_at)
 
             def on_exec(x):
                 r.count("evaluations")
                 r.count("traces")
                 r.count("transitions", len(x.choices))
-                probs = judge_wsgi_sse(x.obs, n, raise_at, consume)
+                probs = judge_wsgi_sse(x.obs, n, raise_at, consume, empty_at)
                 outcomes.add((x.obs["deadlock"], x.obs["enter"], x.obs["exit"], len(x.obs["got"]), x.obs["server_exc"], tuple(x.obs["pool_futures"])))
                 if probs:
                     kind = "deadlock" if "DEADLOCK" in probs[0] else ("livelock" if "LIVELOCK" in probs[0] else probs[0].split(" ")[0])
-                    r.violation(f"wsgi_sse:{kind}", {"driver": "wsgi_sse", "n": n, "raise_at": raise_at, "consume": consume, "timeouts": timeouts, "line_points": line_points, "schedule": list(x.choices)},
-                                f"WSGI SendEventResponse, producer of {n} items (fails at {raise_at}), server takes {consume} items then close(), {timeouts} ping timeout(s), schedule {x.obs['trace'][-14:]}: {probs[0]}")
+                    r.violation(f"wsgi_sse:{kind}", {"driver": "wsgi_sse", "n": n, "raise_at": raise_at, "consume": consume, "timeouts": timeouts, "empty_at": empty_at, "line_points": line_points, "schedule": list(x.choices)},
+                                f"WSGI SendEventResponse, producer of {n} items (fails at {raise_at}, empty event at {empty_at}), server takes {consume} items then close(), {timeouts} ping timeout(s), schedule {x.obs['trace'][-14:]}: {probs[0]}")
             nexec, capped = dfs(run, on_exec, bound=bound)
         r.count("states", len(outcomes))
         if consume is not None and consume <= n:
@@ -429,11 +476,11 @@ def run_shard(desc, tier):
         r.count("states", 1)
         r.sample({"driver": "wsgi_stream", "n": 3, "raise_at": 1, "consume": 2})
     else:
-        kind, n, raise_at, gate_sends, slow_close, disc, pings = asgi_configs(tier)[desc[1]]
+        kind, n, raise_at, gate_sends, slow_close, disc, pings, empty_at = asgi_configs(tier)[desc[1]]
         outcomes = set()
 
         def run(prefix):
-            return run_asgi(prefix, kind, n, raise_at, gate_sends, slow_close, disc, pings)
+            return run_asgi(prefix, kind, n, raise_at, gate_sends, slow_close, disc, pings, empty_at)
 
         def on_exec(x):
             r.count("evaluations")
@@ -441,10 +488,10 @@ def run_shard(desc, tier):
             r.count("transitions", len(x.choices))
             o = x.obs
             outcomes.add((o["stuck"], o["enter"], o["exit"], o["exc"], o["pending_tasks"], o["live_timers"], len(o["sent"])))
-            probs = judge_asgi(o, kind, n, raise_at, disc, slow_close)
+            probs = judge_asgi(o, kind, n, raise_at, disc, slow_close, empty_at)
             if probs:
                 what = "stuck" if probs[0].startswith("STUCK") else probs[0].split(" ")[0]
-                r.violation(f"asgi_{kind}:{what}", {"driver": "asgi", "config": [kind, n, raise_at, gate_sends, slow_close, disc, pings], "schedule": list(x.choices)},
+                r.violation(f"asgi_{kind}:{what}", {"driver": "asgi", "config": [kind, n, raise_at, gate_sends, slow_close, disc, pings, empty_at], "schedule": list(x.choices)},
                             f"ASGI {kind} response, {n} items (fails at {raise_at}), gated sends={gate_sends}, slow cleanup={slow_close}, disconnect={disc}: {probs[0]}")
         dfs(run, on_exec)
         r.count("states", len(outcomes))
@@ -462,14 +509,14 @@ def finish(merged, tier):
 
 def replay(w):
     if w["driver"] == "wsgi_sse":
-        x = run_wsgi_sse(list(w["schedule"]), w["n"], w["raise_at"], w["consume"], w["line_points"], w["timeouts"])
-        probs = judge_wsgi_sse(x.obs, w["n"], w["raise_at"], w["consume"])
+        x = run_wsgi_sse(list(w["schedule"]), w["n"], w["raise_at"], w["consume"], w["line_points"], w["timeouts"], w.get("empty_at"))
+        probs = judge_wsgi_sse(x.obs, w["n"], w["raise_at"], w["consume"], w.get("empty_at"))
         return bool(probs), {"problems": probs, "trace": x.obs["trace"][-30:]}
     if w["driver"] == "wsgi_stream":
         r = R()
         wsgi_stream_cases(r, 3)
         return bool(r.viol), {"violations": sorted(r.viol)}
-    kind, n, raise_at, gate_sends, slow_close, disc, pings = w["config"]
-    x = run_asgi(list(w["schedule"]), kind, n, raise_at, gate_sends, slow_close, disc, pings)
-    probs = judge_asgi(x.obs, kind, n, raise_at, disc, slow_close)
+    kind, n, raise_at, gate_sends, slow_close, disc, pings, empty_at = w["config"]
+    x = run_asgi(list(w["schedule"]), kind, n, raise_at, gate_sends, slow_close, disc, pings, empty_at)
+    probs = judge_asgi(x.obs, kind, n, raise_at, disc, slow_close, empty_at)
     return bool(probs), {"problems": probs, "trace": x.obs["trace"][-30:]}
